@@ -358,7 +358,7 @@ def run(ctx):
     icp = ctx.fn('ProtocolState::is_connect_packet')
     rv_ = [(show(e), guard_strs(icp, b)) for b, e in prims.ret_variants(icp)]
     ctx.ob(any(x in ('(mqtt::mqtt_packet_to_packet_type((HashMap::get(self.operations, id))@Some.0.packet) == PacketType::Connect{})', 'PartialEq::eq(mqtt::mqtt_packet_to_packet_type((HashMap::get(self.operations, id))@Some.0.packet), PacketType::Connect{})') or
-               re.search(r'mqtt_packet_to_packet_type\(.*\.packet\).*PacketType::Connect\{\}', x) is not None and not x.startswith('!') and ' != ' not in x and 'Not(' not in x for x, g in rv_) and
+               re.search(r'mqtt_packet_to_packet_type\(.*\.packet\).*PacketType::Connect\{\}', x) is not None and not x.startswith('!') and ' != ' not in x and 'Not(' not in x and '::ne(' not in x for x, g in rv_) and
            any(x == 'False' and any(re.search(r'HashMap::get\(self\.operations, id\) is None$', y) for y in g) for x, g in rv_),
            'is_connect_packet is true exactly for an existing operation whose packet type is CONNECT (%s)' % [x[:80] for x, g in rv_], 'early-data|is-connect', loc=icp.loc())
     hc_ = ctx.fn('ProtocolState::handle_connack')
@@ -396,3 +396,13 @@ def run(ctx):
     _nv = _sh2.validator_table(ctx, lambda p: 'inbound' in p, 'R-C11-4', 'a server packet is rejected exactly for a listed protocol violation')
     if ctx.config == 'all':
         ctx.floor(_nv, 10, 'inbound validators with a reviewed rejection table')
+    # ---- added after the second mutation sweep: the two explicit encoder panics guard what invariant ENC says they guard (polarity)
+    from .. import panics as _pn
+    enc_ = ctx.fn('Encoder::encode')
+    ps_ = {s_.what: prims.guard_strs_plain(enc_, s_.bb) for s_ in _pn.panic_sites(enc_) if getattr(s_, 'kind', '') == 'panic'}
+    g_small = ps_.get('Encoder::encode - target buffer too small')
+    g_res = ps_.get('Encoder::encode: encoding logic resized dest buffer')
+    ctx.ob(g_small is not None and len(g_small) == 1 and re.match(r'^\(Vec::capacity\(dest\) < 4\)$|^!\(4 <= Vec::capacity\(dest\)\)$', g_small[0]) is not None,
+           'the "target buffer too small" panic is reached only for a buffer of fewer than 4 bytes (drivers allocate 4096; guards: %s)' % g_small, 'enc-panic|too-small', loc=enc_.loc(), rule='R-C11-6')
+    ctx.ob(g_res is not None and bool(g_res) and re.match(r'^!\(Vec::capacity\(dest\) == Vec::capacity\(dest\)\)$|^\(Vec::capacity\(dest\) != Vec::capacity\(dest\)\)$', g_res[-1]) is not None,
+           'the "resized dest buffer" panic is reached only when the capacity changed during the call (never, by R-C02-6) (guards: %s)' % g_res, 'enc-panic|resized', loc=enc_.loc(), rule='R-C11-6')
